@@ -76,6 +76,9 @@ let () = iter_lines (fun line ->
        reference semantics and its snapshot oracle only *)
     if List.exists (fun o -> String.length o > 0 && o.[0] = 'V') (String.split_on_char ';' opss)
     then print_endline (id ^ " SKIP variadic call (direct oracle only)") else
+    (* Y:... = a raw statement outside the machine's values (floats, function values, extension calls): direct oracle only *)
+    if List.exists (fun o -> String.length o > 0 && o.[0] = 'Y') (String.split_on_char ';' opss)
+    then print_endline (id ^ " SKIP raw statement (direct oracle only)") else
     (* X:<hex of the source>:<op>&<op>... = ONE source statement whose effect is these machine statements in a row
        (closures over a local array, a memoized maker: the local / temporary is a hidden variable, number >= 16, not reported) *)
     let parse_top o =
